@@ -19,7 +19,7 @@ CLAIMED = {
    note="decimal formatting of |v| >= 10^5 and float formatting are placeholders; allocation size is not a panic.",
    ref="6 C03"),
  "C04": dict(
-   text="Text -> binary through the real scanner/parser (strconv.ParseInt executed symbolically): (a) every text of 0..5 (quick) / 0..7 bytes over all 256 byte values: no panic, and an accepted text yields exactly one complete NBT value (independent grammar reference) of the announced TagType; (b) the same texts and structured texts (quoted keys and values with arbitrary content incl. escapes, typed arrays, nested containers, arbitrary separators) against an independent three-valued SNBT reader: where that reader is certain the text is a value, an accepting parser produced exactly that tag and payload; where it is certain the text is malformed (empty, unbalanced or mismatched brackets, missing ':', stray delimiter, unterminated quote, non-space after the top-level value) the parser returned an error. Binary -> text -> binary: generated documents without floats (2-3 value nodes, all integer tags, strings and keys of arbitrary bytes incl. non-ASCII and number-like, typed arrays, lists, compounds; integers of 2 (quick) / 3 decimal digits) convert to text and parse back to the identical bytes and tag type.",
+   text="Text -> binary through the real scanner/parser (strconv.ParseInt executed symbolically): (a) every text of 0..5 (quick) / 0..6 bytes over all 256 byte values: no panic, and an accepted text yields exactly one complete NBT value (independent grammar reference) of the announced TagType; (b) the same texts and structured texts (quoted keys and values with arbitrary content incl. escapes, typed arrays, nested containers, arbitrary separators) against an independent three-valued SNBT reader: where that reader is certain the text is a value, an accepting parser produced exactly that tag and payload; where it is certain the text is malformed (empty, unbalanced or mismatched brackets, missing ':', stray delimiter, unterminated quote, non-space after the top-level value) the parser returned an error. Binary -> text -> binary: generated documents without floats (2-3 value nodes, all integer tags, strings and keys of arbitrary bytes incl. non-ASCII and number-like, typed arrays, lists, compounds; integers of 2 (quick) / 3 decimal digits) convert to text and parse back to the identical bytes and tag type.",
    note="ParseFloat/FormatFloat are placeholders: float literals are checked for tag type and width only; decimal formatting is an exact model up to 10^5; whether every text of the grammar must be accepted is not asserted (only what the writer emits, via the round trip); nesting limit outside.",
    ref="6 C04"),
  "C05": dict(
@@ -85,7 +85,7 @@ CLAIMED = {
 EXTRA = {
  "C01": " Also: int/long/byte arrays and lists of 257/129/1025/300 (thorough 1100/1030/4100) elements, every element arbitrary, decoded in order into typed and `any` targets and encoded to the reference bytes; the encoding of an interface-typed sequence is the reference whatever was encoded before it (no content-dependent per-type caching). One Decoder/Encoder for two consecutive documents (first result intact, concatenated output, Encode after a refused value); Marshal/Unmarshal shortcuts with a result held across later calls.",
  "C02": " Also: four levels of anonymous embedding; maps with 2-3 entries whose values are carriers, slices, maps and structs with omitted fields; lists of such structs. Lists of 1100 and 33000 carriers (thorough: structs with omitted fields) element by element and byte for byte; strings, root names and map keys of 32766..70000 bytes: whatever the encoder accepts decodes back, the rest is refused.",
- "C04": " Also: byte/int/long arrays, lists and strings of 1025/300/140/1100/5000 (thorough up to 70000) elements through binary -> text -> binary with one arbitrary element at the 1024 boundary. Integer literals around every range limit (all 3-digit, thorough 5-digit, magnitudes; two arbitrary final digits after concrete prefixes around 2^31, 2^32, 2^63, 2^64) alone, as array element and as compound value: exact in range, never a wrapped number out of range. A fixed valid text of each container kind converts to its reference bytes after any earlier text of 2..5 (thorough 2..7) bytes, accepted or rejected.",
+ "C04": " Also: byte/int/long arrays, lists and strings of 1025/300/140/1100/5000 (thorough up to 70000) elements through binary -> text -> binary with one arbitrary element at the 1024 boundary. Integer literals around every range limit (all 3-digit, thorough 5-digit, magnitudes; two arbitrary final digits after concrete prefixes around 2^31, 2^32, 2^63, 2^64) alone, as array element and as compound value: exact in range, never a wrapped number out of range. A fixed valid text of each container kind converts to its reference bytes after any earlier text of 2..5 (thorough 2..6) bytes, accepted or rejected.",
  "C06": " Also: String, ByteArray, Ary[VarInt], BitSet and Tuple{String,Int} at 127/128/300/16384/70000 (thorough also 129/16383/32767) elements with arbitrary contents, whole-value comparison and exact counts. Optional fields decoded absent then present into the same destination (FixedBitSet, Ary, Tuple); packets built by Marshal held across later Marshal calls; ReadFrom after a truncated read into the same destination; empty NBT containers as fields; Scan on payloads cut at field boundaries and with a trailing zero-length field.",
  "C07": " Also: frames of 300 KiB and just below the 2 MiB limit (Packet Length of 4 VarInt bytes) in every threshold class against the independent frame reader; packets received earlier and held in their own Packet stay intact across later Pack/UnPack calls with always-reused pooled buffers. After a failed Pack or UnPack the next one is unaffected; payloads of 32767/65535/327679 bytes (inflated size a multiple of the deflate window).",
  "C08": " Also: Registry.ReadFrom (raw and typed entries) and ReadTagsFrom on every byte string of 0..7 (thorough 0..9) bytes, fresh and populated; text components in NBT form and chat-type headers on every byte string of 0..7 (thorough 0..9) bytes; declared sizes of 32767..2^22 over streams of 0..3 bytes for String, ByteArray, BitSet, Ary, Identifier and both frame modes; arrays declaring 0..70001 and 2^22 elements over streams holding 1500/5000 (thorough 70000) elements: never a panic, success exactly when every declared element is present.",
